@@ -64,6 +64,15 @@ def generate(rng, tier, index):
             for op in ops:
                 if rng.random() < 0.4:
                     op['script'] = [{'act': 'nothing'}] + op['script']
+    elif rng.random() < 0.2:
+        # a slow device behind a generous client timeout: one transaction legitimately lasts longer than the library's
+        # DEFAULT timeout x (retries + 1), so a caller queues behind it for longer than any bound derived from defaults
+        kw.update({'timeout': rng.choice([5.0, 10.0, 20.0]), 'retries': rng.choice([0, 0, 1])})
+        for ops in callers:
+            for op in ops:
+                for st in op['script']:
+                    if st.get('act') == 'reply':
+                        st['delay'] = rng.choice([0.01, 1.0, 3.5, 4.5]) if kw['timeout'] == 5.0 else rng.choice([0.01, 2.0, 4.0, 7.5])
     sched = {'tail_seed': rng.randrange(1 << 30)}
     if tier == 'thorough' and rng.random() < 0.4:
         # PCT-style: 1-3 forced switches at line events inside the client code
